@@ -454,7 +454,7 @@ class C01Executor(_lg.LoggingMixin, _rf.ReadFileExecutor):
 
 EXECUTOR = C01Executor
 
-TRUSTED = ["third-party parsers terminate (their exceptions are covered by EXC-ANY)",
+TRUSTED = ["third-party parsers terminate (their exceptions are covered by EXC-ANY); known exception: olefile's property parser on a damaged SummaryInformation stream, recorded finding C01-olefile-property-vector-count-trusted, decided by its own bounded scope obligation",
            "CPython's `re` explores at most the paths of the pattern's position automaton (so: polynomially many for a pattern without EDA)",
            "TREE-FINITE: the trees the recursive functions walk (ElementTree / html node trees built by a parser from a finite document, JSON-like values, dataclass "
            "instances) are finite and acyclic, and iteration / subscript / field access / find / findall / values / items yield strict parts of them",
